@@ -139,7 +139,7 @@ theorem delThrough_found (root : Val) (p : Pos) (c : Val) (r : Res) (t' : Val)
   rcases hname.inv with ⟨cls, kvs, k, rfl, rfl, hnik⟩ | ⟨cls, xs, n, i, rfl, rfl, hnii, hn⟩
   · rw [hnik]
     unfold delThrough
-    simp only [valOf_at, hpv]
+    simp only [isWrap_at, Bool.false_eq_true, if_false, valOf_at, hpv]
     by_cases hh : kvHas k kvs = true
     · have hsn := delAt_snoc pp root (.key k) (.dict cls kvs) (.dict cls (kvDel k kvs)) hpv (by simp [delChild, hh])
       rw [hsn] at hdel
@@ -154,7 +154,7 @@ theorem delThrough_found (root : Val) (p : Pos) (c : Val) (r : Res) (t' : Val)
     have hsn := delAt_snoc pp root (.idx n) (.list cls xs) (.list cls (xs.eraseIdx n)) hpv (by simp [delChild, hlt])
     rw [hsn] at hdel
     unfold delThrough
-    simp only [valOf_at, hpv, startsWith_bracket, endsWith_bracket, Bool.and_self, Bool.not_true,
+    simp only [isWrap_at, Bool.false_eq_true, if_false, valOf_at, hpv, startsWith_bracket, endsWith_bracket, Bool.and_self, Bool.not_true,
       Bool.false_eq_true, if_false, bracket_inner, n0eval_intStr, hn]
     rw [modRef_at root pp _ _ hpv]
     simp [hdel]
